@@ -1,6 +1,6 @@
 --------------------------- MODULE HostAccumulate ---------------------------
 (* Functional definitions of the host calls behind C07 (exact results), C08 (token  *)
-(* conservation) and C09 (storage footprint): gas, lookup, read, write, info,        *)
+(* conservation) and C09 (storage footprint): gas, lookup, read, write, info, export, *)
 (* checkpoint, new, upgrade, transfer, eject, query, solicit, forget, yield, log.    *)
 (* Gray Paper 0.7.x Appendix B, reconstructed; balances, thresholds and gas are      *)
 (* exact integers on byte sequences (no value is ever reduced mod 2^64 silently).    *)
@@ -252,25 +252,42 @@ OmYield(s) ==
   IF ~Readable(s.acc, R(s, 7), U(32)) THEN <<Panic(s)>>
   ELSE <<Ret(s, OK, [s.ctx EXCEPT !.yield = Read(s.data, R(s, 7), 32)])>>
 
+\* export (refine): the segment's content is logged as a digest only, so the appended element is a placeholder
+\* (<<>>) that CtxMatch lets stand for any one new digest
+WX == 3072
+OmExport(s) ==
+  LET c == s.ctx
+      z == IF LtU(R(s, 8), U(WG)) THEN R(s, 8) ELSE U(WG)
+  IN IF ~Readable(s.acc, R(s, 7), z) THEN <<Panic(s)>>
+     ELSE IF c.expoff + c.nexp >= WX THEN <<Ret(s, FULL, c)>>
+     ELSE <<Ret(s, U(c.expoff + c.nexp), [c EXCEPT !.nexp = @ + 1, !.expd = Append(@, <<>>)])>>
+
 OmLog(s) == <<Out("cont", s.regs, Gas10(s), FALSE, U64Zero, <<>>, s.ctx, FALSE)>>
 OmUnknown(s) == <<Ret(s, WHAT, s.ctx)>>
 
 \* calls with an exact definition here (given a context that contains the caller's account)
-Functional == {0, 2, 3, 4, 5, 17, 18, 19, 20, 21, 22, 23, 24, 25, 100}
+Functional == {0, 2, 3, 4, 5, 7, 17, 18, 19, 20, 21, 22, 23, 24, 25, 100}
 HasOmega(k, s) == k \in Functional /\ HasSelf(s.ctx) /\ ~(k \in {22, 23, 24} /\ Wide(s))
 Omega(k, s) ==
   IF ~GasOK(s.gas) THEN <<OOG(s)>>
-  ELSE CASE k = 0 -> OmGas(s) [] k = 2 -> OmLookup(s) [] k = 3 -> OmRead(s) [] k = 4 -> OmWrite(s) [] k = 5 -> OmInfo(s)
+  ELSE CASE k = 0 -> OmGas(s) [] k = 2 -> OmLookup(s) [] k = 3 -> OmRead(s) [] k = 4 -> OmWrite(s) [] k = 5 -> OmInfo(s) [] k = 7 -> OmExport(s)
          [] k = 17 -> OmCheckpoint(s) [] k = 18 -> OmNew(s) [] k = 19 -> OmUpgrade(s) [] k = 20 -> OmTransfer(s)
          [] k = 21 -> OmEject(s) [] k = 22 -> OmQuery(s) [] k = 23 -> OmSolicit(s) [] k = 24 -> OmForget(s)
          [] k = 25 -> OmYield(s) [] k = 100 -> OmLog(s) [] OTHER -> OmUnknown(s)
 
+\* context equality up to the placeholder of a freshly exported segment
+CtxMatch(want, got) ==
+  \/ want = got
+  \/ /\ want.expd # <<>> /\ want.expd[Len(want.expd)] = <<>> /\ Len(got.expd) = Len(want.expd)
+     /\ got.expd[Len(got.expd)] # <<>>
+     /\ [want EXCEPT !.expd = got.expd] = got
+     /\ Sub(got.expd, 1, Len(got.expd) - 1) = Sub(want.expd, 1, Len(want.expd) - 1)
 \* does the observed post state equal outcome e ?
 Matches(e, pre, post) ==
   /\ post.exit = e.exit
   /\ post.regs = e.regs
   /\ (e.gasany \/ post.gas = e.gas)
-  /\ post.ctx = e.ctx
+  /\ CtxMatch(e.ctx, post.ctx)
   /\ post.acc = pre.acc
   /\ ~post.ychg \/ e.yx
   /\ (e.yx => post.yx)
